@@ -3,4 +3,5 @@ package engines
 
 import (
 	_ "verif/harness/mptsim"
+	_ "verif/harness/wmptsim"
 )
